@@ -1,6 +1,8 @@
 //! C13 — text in embedded fonts is recoverable exactly.
 //!
 //! Request: `emb <api> <seg>[/<seg>…]`   seg = `<font>:<cps>`  (cps = code points, hex, joined by `.`)
+//!          `emb mix <a><page>@<font>:<cps>[/…]`   a = t | g per segment, page = 0..9 (same font through both
+//!          contexts on one page / across pages: the document's used characters are the union)
 //!   api  = text  (`page.text().set_font(Font::Custom(f), 12).at(50, y).write(s)`, one call per segment)
 //!          gfx   (`page.graphics().set_custom_font(f, 12)` + `draw_text(s, 50, y)`)
 //!   font = roboto (TrueType, test-pdfs/Roboto-Regular.ttf)   sans3 (OpenType/CFF, test-pdfs/SourceSans3-Regular.otf)
@@ -9,7 +11,7 @@
 //! `Document::add_font_from_bytes`, the document is written by the real writer (classic xref,
 //! streams uncompressed so that the independent reader on the Lean side can walk the file).
 //! Answer: `lib=<cps>;facts=<…>;file=<hex>`
-//!   lib   = `TextExtractor::new().extract_from_page(doc, 0).text` of the written bytes (code points)
+//!   lib   = `TextExtractor::new().extract_from_page(doc, p).text` of the written bytes (code points), pages joined by `/`
 //!   facts = per font `<font>=<unitsPerEm>,<numGlyphs>,<cp>-<gid>-<advance>…` for the characters used,
 //!           read from the ORIGINAL font file by the small sfnt reader below (independent of the crate:
 //!           table directory, head, hhea, maxp, hmtx, cmap formats 4 and 12)
@@ -546,5 +548,7 @@ fn gen(rng: &mut Rng, tier: Tier) -> Vec<Case> {
 }
 
 fn main() {
-    harness_main(gen, run, Limits::default());
+    // a request takes well under a second; the generous budget only keeps a heavily loaded machine from
+    // turning a slow child into a spurious `timeout` answer (this property is not about termination)
+    harness_main(gen, run, Limits { per_case: std::time::Duration::from_secs(120), ..Limits::default() });
 }
